@@ -467,7 +467,18 @@ def check_successor(ctx):
     C02.check_successor(ctx, "C09.successor")
 
 
+def check_journal_position(ctx):
+    """the two-slot journal ping-pongs so that a journal write that fails half-way (torn, short) can only damage the older,
+    superseded image: every journal writer - intent *and* clear - records the slot it wrote, the next write goes to the other
+    slot, and the in-memory position advances only after write + fsync succeeded. A clear that forgets its slot makes the next
+    intent overwrite the newest image in place; if that write tears, decode falls back to the previous batch's stale intent and
+    recovery scrubs acknowledged records (same rule as C04.position)."""
+    from rules import C04
+    C04.check_position(ctx, "C09.journal-position")
+
+
 def check(ctx):
+    check_journal_position(ctx)
     check_successor(ctx)
     check_completion(ctx)
     check_metadata_commit(ctx)
